@@ -12,6 +12,7 @@ import (
 type c12File struct {
 	in       []byte
 	segFrags []int    // fragments per media segment, as the delimiters dictate
+	tfraFrags []int   // fragments per segment according to the tfra entries ('T' layouts)
 	segDur   []uint32 // summed sample durations of the reference track per segment
 	firstPT  uint64   // presentation time of the first sample of the first segment
 	mediaEnd int      // offset where the media segments end (start of mfra, or len)
@@ -47,7 +48,7 @@ func c12Fragment(seqNr uint32, t0 uint64, nSamples int, base byte) (*Fragment, u
 
 // c12Build: init + media built with the real constructors. layout: one character per
 // fragment, 'S' = preceded by styp (new segment), 'f' = further fragment of the segment,
-// 'D' = like 'S' but with two segment-level sidx boxes after the styp, 'N' = fragment without styp before it; optional suffix 'M' = mfra at the end (one tfra entry
+// 'D' = like 'S' but with two segment-level sidx boxes after the styp, 'N' = fragment without styp before it, 'T' = like 'N' but the start of a segment according to the tfra; optional suffix 'M' = mfra at the end (one tfra entry
 // per segment), 'E' = emsg before the first fragment.
 func c12Build(layout string) *c12File {
 	cf := &c12File{}
@@ -81,7 +82,18 @@ func c12Build(layout string) *c12File {
 		if i+1 < len(layout) && layout[i+1] == 'E' {
 			f.AddEmsg(&EmsgBox{Version: 1, TimeScale: 90000, PresentationTime: 5, ID: 7, SchemeIDURI: "urn:x", Value: "1"})
 		}
-		newSeg := c == 'S' || c == 'D' || (c == 'N' && len(cf.segFrags) == 0)
+		newSeg := c == 'S' || c == 'D' || ((c == 'N' || c == 'T') && len(cf.segFrags) == 0)
+		if c == 'T' {
+			// a fragment without styp that starts a new segment according to the tfra only
+			cf.tfraFrags = append(cf.tfraFrags, 0)
+			if !newSeg {
+				segStarts = append(segStarts, uint64(len(out)))
+				segTimes = append(segTimes, t)
+			}
+		}
+		if len(cf.tfraFrags) > 0 {
+			cf.tfraFrags[len(cf.tfraFrags)-1]++
+		}
 		if newSeg {
 			segStarts = append(segStarts, uint64(len(out)))
 			segTimes = append(segTimes, t)
@@ -145,7 +157,10 @@ func VerifC12Grouping(layout string, flags int, sr bool) {
 		return
 	}
 	want := cf.segFrags
-	if flags&int(DecStartOnMoof) != 0 {
+	if len(cf.tfraFrags) > 0 && flags&int(DecISMFlag) != 0 {
+		// the mfra/tfra gives the segment boundaries; it takes priority over start-on-moof
+		want = cf.tfraFrags
+	} else if flags&int(DecStartOnMoof) != 0 {
 		// start-on-moof: every moof/mdat pair is its own segment (checked for files without styp)
 		want = nil
 		for _, n := range cf.segFrags {
